@@ -388,9 +388,25 @@ def select(prog, rep):
     if warns and sel[0] == "sub" and sel[2][0] == "cmp":
         cs = sel[2][2]
         want = ("cmp", "<", ("sub", cs, ("const", -1)), limit)
-        okw = want in pcs.of(warns[0]) and not cfg.enclosing_loops(warns[0])
+        pcw = pcs.of(warns[0])
+        # literals that also hold after the warning's if-statement come from earlier raising guards; the rest is the warning's own condition
+        enc = cfg.enclosing(warns[0])
+        after = None
+        if enc:
+            top = enc[0][0]
+            body = fn.body
+            for k_, s_ in enumerate(body):
+                if s_ is top and k_ + 1 < len(body):
+                    after = body[k_ + 1]
+        inherited = set(pcs.of(after)) if after is not None else set()
+        own = [l for l in pcw if l not in inherited]
+        okw = own == [want] and not cfg.enclosing_loops(warns[0])
+        if want in pcw and not okw:
+            extra_why = f"; the warning is additionally conditioned on {[show(l)[:80] for l in own if l != want]}: shortfalls satisfying that are returned silently"
+        else:
+            extra_why = ""
     rep.check(okw, "C02.warn", f"{q}:unreachable", fn.where(warns[0]) if warns else fn.where(), "cum_sum[-1] < limit -> warnings.warn(RuntimeWarning)",
-              "if the whole grid holds less than the limit a RuntimeWarning must be issued (test: total cumulative sum < limit)")
+              "if the whole grid holds less than the limit a RuntimeWarning must be issued (test: exactly 'total cumulative sum < limit')" + (extra_why if warns and sel[0] == "sub" and sel[2][0] == "cmp" else ""))
 
 
 def grid(prog, rep):
